@@ -17,14 +17,14 @@ func init() {
 	register(&Check{
 		ID: "C10", Level: "exploration", Primary: "pipelines", EvalCount: "pipelines_checked",
 		Rule: "pipelines <k requests> Unbind <m requests> for all k,m in 0..3 (0..8 in thorough) x {whole pipeline in one write (same TCP segment), one write per frame, byte-dribbled} x {no unbind route, unbind route registered, unbind route whose handler panics} x " +
-			"{earlier handlers finished, earlier handlers parked on a harness gate (also 63..300 of them at once)} x {plain, TLS}; the requests after the Unbind include every operation kind and a second Unbind. Oracle: the set of dispatched message IDs equals the k earlier ones; " +
+			"{earlier handlers finished, earlier handlers parked on a harness gate (also 63..300 of them at once), an earlier handler that panicked and was recovered} x Unbind message IDs {555, 0, 1, 99, 2^31-1} x {plain, TLS}; the requests after the Unbind include every operation kind and a second Unbind. Oracle: the set of dispatched message IDs equals the k earlier ones; " +
 			"the unbind handler ran exactly once when registered; the strictly parsed stream up to EOF contains exactly one response per earlier request and nothing carrying the Unbind's or a later request's message ID; " +
 			"with parked handlers EOF is not seen before the gate opens and is seen after. distinct_nontrivial = distinct (k, m, write mode, route, parked, transport) combinations",
 		Assume: []string{"'dispatched' is observed by recording handlers on every route kind including the default route"},
 		Phases: func(tier string, seed int64) []Phase {
 			return []Phase{{Name: "pipelines", Run: c10Run}}
 		},
-		MinObserved: []string{"pipelines_checked", "requests_after_unbind_sent", "eof_withheld_until_release_observed", "pipelines_after_a_write_fault"},
+		MinObserved: []string{"pipelines_checked", "requests_after_unbind_sent", "eof_withheld_until_release_observed", "pipelines_after_a_write_fault", "pipelines_with_an_earlier_handler_panic", "unbinds_with_unusual_message_ids"},
 	})
 }
 
@@ -36,6 +36,11 @@ type c10Case struct {
 	Parked     bool
 	Transport  string
 	WriteFault bool // the connection's write deadline has expired before the pipeline is sent: every response write fails
+	// EarlierPanic: the handler of the first earlier request panics (recovered by gldap, no response): the Unbind must
+	// still end the connection
+	EarlierPanic bool
+	// UnbindID: the message ID of the Unbind (0 and the largest value are as good as any other)
+	UnbindID int64
 }
 
 func c10Run(c *Ctx) {
@@ -74,6 +79,20 @@ func c10Run(c *Ctx) {
 		for _, route := range []int{0, 1} {
 			cases = append(cases, c10Case{K: k, M: 2, Mode: "one-write", Route: route > 0, Transport: "plain", WriteFault: true})
 		}
+	}
+	// an earlier handler that panicked (and was recovered) before the Unbind arrives
+	for _, k := range []int{1, 2, 4} {
+		for _, route := range []int{0, 1} {
+			for _, tr := range []string{"plain", "tls"} {
+				for _, mode := range []string{"one-write", "per-frame"} {
+					cases = append(cases, c10Case{K: k, M: 2, Mode: mode, Route: route > 0, Transport: tr, EarlierPanic: true})
+				}
+			}
+		}
+	}
+	// the Unbind's message ID is the client's business
+	for i := range cases {
+		cases[i].UnbindID = []int64{555, 555, 0, 1, 1<<31 - 1, 99}[i%6]
 	}
 	var next atomic.Int64
 	var wg sync.WaitGroup
@@ -133,6 +152,9 @@ func c10One(c *Ctx, pki *PKI, srvs map[string]*Srv, cs c10Case, r *Rand, idx int
 			entered.Add(1)
 			if cs.Parked && o.Kind == "search" && strings.HasPrefix(string(o.DN), "park") {
 				<-gate
+			}
+			if cs.EarlierPanic && o.ID == 100 {
+				panic("injected panic in an earlier handler (C10)")
 			}
 			replyFor(o, w, req)
 		}
@@ -229,7 +251,19 @@ func c10One(c *Ctx, pki *PKI, srvs map[string]*Srv, cs c10Case, r *Rand, idx int
 		before[id] = true
 		frames = append(frames, f)
 	}
-	const unbindID = 555
+	unbindID := cs.UnbindID
+	if cs.EarlierPanic {
+		// the first earlier request is one whose message ID handlers can see (not an extended request)
+		frames[0] = sber.Message(100, sber.DelRequest([]byte("cn=panics")), nil).Encode()
+		if extBefore[100] {
+			delete(extBefore, 100)
+			nExtBefore--
+		}
+		c.Count("pipelines_with_an_earlier_handler_panic", 1)
+	}
+	if unbindID != 555 {
+		c.Count("unbinds_with_unusual_message_ids", 1)
+	}
 	frames = append(frames, sber.Message(unbindID, sber.UnbindRequest(), nil).Encode())
 	for i := 0; i < cs.M; i++ {
 		id := int64(700 + i)
@@ -312,7 +346,7 @@ func c10One(c *Ctx, pki *PKI, srvs map[string]*Srv, cs c10Case, r *Rand, idx int
 	mu.Lock()
 	defer mu.Unlock()
 	c.Count("pipelines_checked", 1)
-	c.Distinct("pipelines", fmt.Sprintf("%d/%d/%s/%v/%v/%v/%s/%v", cs.K, cs.M, cs.Mode, cs.Route, cs.Panics, cs.Parked, cs.Transport, cs.WriteFault))
+	c.Distinct("pipelines", fmt.Sprintf("%d/%d/%s/%v/%v/%v/%s/%v/%v/%d", cs.K, cs.M, cs.Mode, cs.Route, cs.Panics, cs.Parked, cs.Transport, cs.WriteFault, cs.EarlierPanic, cs.UnbindID))
 	seen := map[int64]int{}
 	for _, id := range dispatched {
 		seen[id]++
@@ -369,7 +403,7 @@ func c10One(c *Ctx, pki *PKI, srvs map[string]*Srv, cs c10Case, r *Rand, idx int
 		}
 	}
 	for id := range before {
-		if got[id] == 0 && !cs.WriteFault {
+		if got[id] == 0 && !cs.WriteFault && !(cs.EarlierPanic && id == 100) {
 			c.Violate("an earlier request's response was lost when the connection ended", fmt.Sprintf("%v: id %d", cs, id), det)
 		}
 	}
